@@ -7,7 +7,7 @@ Oracle: applying a mismatch as "replace original lines [original_start, original
 before original_start) yields the new lines: `expected` is the concatenation of ALL inserted lines, `original` of ALL removed lines,
 and the end indices are start + len - 1.
 """
-import json, re, z3
+import os, json, re, z3
 
 from .. import common, clireplay, clihooks
 from ..common import Inconclusive
@@ -24,8 +24,8 @@ class Seq:
         self.op, self.tags, self.mapped = op, frozenset(tags), mapped
 
 
-def closure_keeps(ses, ex, cname):
-    """tags for which a filter closure returns true (its MIR is executed with a symbolic tag)"""
+def closure_keeps(ses, ex, cname, env=None):
+    """tags for which a filter closure returns true (its MIR is executed with a symbolic tag and the captured values of the call)"""
     f = None
     for n_, l in ex.funcs.items():
         for g in l:
@@ -43,7 +43,7 @@ def closure_keeps(ses, ex, cname):
         return NotImplemented
     ex2.hooks = [hook]
     ch = ex2.fresh_lazy("Change<&str>", "change")
-    outs = ex2.run(f, [RefV(ex2.fresh_lazy("closure", "env")), RefV(ch)])
+    outs = ex2.run(f, [RefV(env if env is not None else ex2.fresh_lazy("closure", "env")), RefV(ch)])
     d = ex2.discr(None, tag)
     keep = set()
     for i, t in enumerate(TAGS):
@@ -68,9 +68,18 @@ def closure_extracts_value(ses, ex, cname):
     return calls == ["value"] or calls == ["value", "to_string"] or calls == ["to_string_lossy"]
 
 
+def local_helpers():
+    """helper functions defined next to the diff printers are part of them (extracting one must not blind the kernel)"""
+    src = open(os.path.join(common.REPO, "src/cli/output_diff.rs")).read()
+    names = set(re.findall(r"\bfn\s+(\w+)", src)) - {"output_diff", "output_diff_json", "output_diff_unified", "fmt", "serialize"}
+    types = set(re.findall(r"\bimpl(?:<[^>]*>)?\s+(\w+)\s*\{", src))
+    return lambda n, f: ("{closure" not in n and len(f.blocks) <= 40 and re.split(r"::", n)[-1] in names
+                         and ("output_diff" in n or "::" not in n or n.split("::")[0] in types))
+
+
 def analyse(ses, rep):
     flagged = []
-    ex = ses.executor("bin", "default", inline=lambda n, f: False)
+    ex = ses.executor("bin", "default", inline=local_helpers())
     T = ex.enums
     op = ex.fresh_lazy("DiffOp", "op")
     keeps = {}
@@ -91,9 +100,15 @@ def analyse(ses, rep):
             cm = re.search(r"filter::<(\{closure@[^}]*\})>", callee)
             if not cm:
                 return NotImplemented
-            if cm.group(1) not in keeps:
-                keeps[cm.group(1)] = closure_keeps(ses, ex_, cm.group(1))
-            return _SeqV(Seq(args[0].seq.op, args[0].seq.tags & keeps[cm.group(1)], args[0].seq.mapped))
+            env = deref_val(ex_, st, args[1])
+            if isinstance(env, Agg) and env.fields:        # captured values, detached from the caller's frame
+                env = Agg(env.ty, env.variant, [RefV(deref_val(ex_, st, f_)) if isinstance(f_, (Ref, RefV)) else f_ for f_ in env.fields], env.names)
+            else:
+                env = None
+            ck = (cm.group(1), repr(env))
+            if ck not in keeps:
+                keeps[ck] = closure_keeps(ses, ex_, cm.group(1), env)
+            return _SeqV(Seq(args[0].seq.op, args[0].seq.tags & keeps[ck], args[0].seq.mapped))
         if re.search(r"as Iterator>::map$", c) and isinstance(args[0], _SeqV):
             cm = re.search(r"map::<[^{]*(\{closure@[^}]*\})>", callee)
             ok = cm is not None and closure_extracts_value(ses, ex_, cm.group(1))
@@ -105,6 +120,8 @@ def analyse(ses, rep):
         if re.search(r"as Iterator>::next$", c) and isinstance(deref_val(ex_, st, args[0]), _SeqV):
             sq = deref_val(ex_, st, args[0]).seq
             return opt_some(dty, _StrV("first-change", sq))      # similar never emits an op without changes
+        if c.endswith("String::new"):
+            return Str("")
         if re.search(r"as ToString>::to_string$", c) or c.endswith("::value") or c.endswith("to_string_lossy") or re.search(r"<.* as (Into|From)<.*>>::(into|from)$", c):
             v = deref_val(ex_, st, args[0])
             if isinstance(v, _StrV):
@@ -313,8 +330,8 @@ def nodiff(ses, rep):
                 continue
             none = inner.variant == "None"
             if how == "ratio":
-                if "v" not in probe:
-                    raise Inconclusive("output_diff_unified does not consult TextDiff::ratio")
+                if "v" not in probe:      # the test does not go through ratio(): decide it over a model of the op list instead
+                    return flagged + nodiff_ops_model(ses, rep, fname)
                 r_ = probe["v"].t
                 one = z3.FPVal(1.0, z3.Float32())
                 dom = [z3.Not(z3.fpIsNaN(r_)), z3.fpGEQ(r_, z3.FPVal(0.0, z3.Float32())), z3.fpLEQ(r_, one)]
@@ -339,6 +356,177 @@ def nodiff(ses, rep):
                 flagged.append((oid, what, "nodiff", {"format": {"output_diff_unified": "unified", "output_diff": "standard", "output_diff_json": "json"}[fname], "missed": none}))
         if n == 0:
             raise Inconclusive(f"{fname}: no path returns Some/None")
+    return flagged
+
+class _ItV:
+    """iterator over the modelled op list with the closures applied so far"""
+    def __init__(self, stages=()):
+        self.stages = tuple(stages)
+
+
+K_OPS = 3
+
+
+def nodiff_ops_model(ses, rep, fname="output_diff_unified"):
+    """the `nothing to report` test of a producer that looks at similar's op list instead of ratio(): the diff is modelled as up to K_OPS
+    DiffOps of symbolic kind and lengths under similar's contract (ops partition both texts in order; an op is never empty; `Equal` covers
+    the same number of lines on both sides); iterator adaptors over the ops run the closures' MIR on every modelled op.
+    Oracle: None is returned iff every op is `Equal`."""
+    flagged = []
+    ex = ses.executor("bin", "default", inline=local_helpers())
+    ex.max_block_visits = 1
+    T = ex.enums
+    ORDER = {v[0]: [f[0] for f in v[2]] for v in T.variants("DiffOp")}
+    ops = [ex.fresh_lazy("DiffOp", f"op{i}") for i in range(K_OPS)]
+    n_ops = z3.BitVec("n_ops", 64)
+    tot = {"old": z3.BitVec("old_lines", 64), "new": z3.BitVec("new_lines", 64)}
+    zero, one = z3.BitVecVal(0, 64), z3.BitVecVal(1, 64)
+    used = set()
+
+    def closure_fn(cname):
+        for n_, l in ex.funcs.items():
+            for g in l:
+                if "{closure" in n_ and g.params and cname in g.params[0][1]:
+                    return g
+        raise Inconclusive(f"closure {cname} not found")
+
+    def apply(stages, op, st):
+        """-> [(cond, value or None)] : the item(s) the adaptor chain yields for `op` (None = filtered out)"""
+        cur = [([], RefV(op))]
+        for kind, g, env in stages:
+            nxt = []
+            for pc, v in cur:
+                if v is None:
+                    nxt.append((pc, None)); continue
+                a2 = RefV(v) if kind == "filter" else v
+                outs = ex.run(g, [RefV(env), a2], _nested=True)
+                for o in outs:
+                    if o.kind != "return":
+                        raise Inconclusive(f"closure {g.name}: {o.kind}")
+                    r = deref_val(ex, o.state, o.value)
+                    if kind == "filter":
+                        if not isinstance(r, Sym):
+                            raise Inconclusive("filter closure result")
+                        nxt.append((pc + list(o.pc) + [r.t], v)); nxt.append((pc + list(o.pc) + [z3.Not(r.t)], None))
+                    else:
+                        nxt.append((pc + list(o.pc), r))
+            cur = nxt
+        return cur
+
+    def hook(ex_, st, callee, args, dty):
+        c = canon(callee)
+        if c.endswith("TextDiff::ops"):
+            used.add("ops")
+            return RefV(_ItV())
+        m_ = re.search(r"TextDiff::(old|new)_slices$", c)
+        if m_:
+            used.add(m_.group(1))
+            v = ex_.fresh_lazy(dty.lstrip("&"), m_.group(1) + "_slices")
+            ex_.lazy_tab[(v.oid, ("len",))] = Sym(tot[m_.group(1)], "usize")
+            return RefV(v)
+        a0 = deref_val(ex_, st, args[0]) if args else None
+        if isinstance(a0, _ItV):
+            if re.search(r"::(iter|into_iter)$", c):
+                return a0
+            if re.search(r"(<\[DiffOp\]>|Vec)::len$", c) or c.endswith("ExactSizeIterator>::len"):
+                return Sym(n_ops, "usize")
+            if re.search(r"(<\[DiffOp\]>|Vec)::is_empty$", c):
+                return Sym(n_ops == zero, "bool")
+            ad = re.search(r"as Iterator>::(map|filter|all|any|sum|count)(?:::<(.*)>)?$", callee)
+            if not ad:
+                raise Inconclusive(f"iterator adaptor {c} over the diff ops is not modelled")
+            cm = re.search(r"(\{closure@[^}]*\})>$", callee)
+            how = ad.group(1)
+            if how in ("map", "filter", "all", "any"):
+                if not cm:
+                    raise Inconclusive(f"{how} without a closure")
+                env = deref_val(ex_, st, args[1]) if len(args) > 1 else None
+                if isinstance(env, Agg) and env.fields:
+                    env = Agg(env.ty, env.variant, [RefV(deref_val(ex_, st, f_)) if isinstance(f_, (Ref, RefV)) else f_ for f_ in env.fields], env.names)
+                elif not isinstance(env, Agg):
+                    env = ex_.fresh_lazy("closure", "env")
+                stage = ("filter" if how == "filter" else "map", closure_fn(cm.group(1)), env)
+                if how in ("map", "filter"):
+                    return _ItV(a0.stages + (stage,))
+                stages = a0.stages + (stage,)
+            else:
+                stages = a0.stages
+            acc = z3.BoolVal(how == "all") if how in ("all", "any") else zero
+            for i, op in enumerate(ops):
+                act = z3.ULT(z3.BitVecVal(i, 64), n_ops)
+                for pc, v in apply(stages, op, st):
+                    cond = z3.And([act] + pc)
+                    if how == "count":
+                        acc = acc + z3.If(z3.And(cond, z3.BoolVal(v is not None)), one, zero)
+                    elif v is None:
+                        continue
+                    elif how == "sum":
+                        acc = acc + z3.If(cond, ex_.as_bv(v), zero)
+                    elif how == "all":
+                        acc = z3.And(acc, z3.Implies(cond, v.t))
+                    else:
+                        acc = z3.Or(acc, z3.And(cond, v.t))
+            return Sym(acc, "bool" if how in ("all", "any") else "usize")
+        return NotImplemented
+    ex.hooks = [hook]
+    fn = ses.need(ex, fname)
+    outs = ex.run(fn, [ex.fresh_lazy("&str", "old"), ex.fresh_lazy("&str", "new")])
+    if "ops" not in used:
+        raise Inconclusive(f"{fname} consults neither TextDiff::ratio nor TextDiff::ops")
+    # similar's contract over the modelled ops
+    D = [ex.discr(None, op) for op in ops]
+    idx = {k: z3.BitVecVal(T.index("DiffOp", k), 64) for k in ORDER}
+    lim = z3.BitVecVal(2 ** 20, 64)
+
+    def fld(i, kind, name):
+        j = ORDER[kind].index(name)
+        v = ex.lazy_tab.get((ops[i].oid, ("vfield", kind, j)))
+        return v.t if isinstance(v, Sym) else z3.BitVec(f"op{i}.{kind}.{name}", 64)
+    contract = [z3.ULE(n_ops, z3.BitVecVal(K_OPS, 64))]
+    so, sn = zero, zero
+    for i in range(K_OPS):
+        act = z3.ULT(z3.BitVecVal(i, 64), n_ops)
+        contract.append(z3.ULT(D[i], z3.BitVecVal(len(ORDER), 64)))
+        ol = z3.If(D[i] == idx["Equal"], fld(i, "Equal", "len"), z3.If(D[i] == idx["Delete"], fld(i, "Delete", "old_len"),
+             z3.If(D[i] == idx["Replace"], fld(i, "Replace", "old_len"), zero)))
+        nl = z3.If(D[i] == idx["Equal"], fld(i, "Equal", "len"), z3.If(D[i] == idx["Insert"], fld(i, "Insert", "new_len"),
+             z3.If(D[i] == idx["Replace"], fld(i, "Replace", "new_len"), zero)))
+        for kind in ORDER:
+            for name in ORDER[kind]:
+                x = fld(i, kind, name)
+                contract.append(z3.ULT(x, lim))
+                if name.endswith("len"):
+                    contract.append(z3.Implies(D[i] == idx[kind], z3.UGE(x, one)))
+                if name in ("old_index", "new_index"):
+                    contract.append(z3.Implies(z3.And(act, D[i] == idx[kind]), x == (so if name == "old_index" else sn)))
+        if i:
+            contract.append(z3.Implies(act, z3.Not(z3.And(D[i] == idx["Equal"], D[i - 1] == idx["Equal"]))))
+        so = so + z3.If(act, ol, zero)
+        sn = sn + z3.If(act, nl, zero)
+    contract += [tot["old"] == so, tot["new"] == sn]
+    same = z3.And([z3.Implies(z3.ULT(z3.BitVecVal(i, 64), n_ops), D[i] == idx["Equal"]) for i in range(K_OPS)])
+    n = 0
+    for pi, o in enumerate(outs):
+        if o.kind != "return":
+            continue
+        v = deref_val(ex, o.state, o.value)
+        inner = v.fields[0] if isinstance(v, Agg) and v.variant == "Ok" else v if isinstance(v, Agg) and v.variant in ("None", "Some") else None
+        inner = deref_val(ex, o.state, inner) if inner is not None else None
+        if not isinstance(inner, Agg):
+            continue
+        none = inner.variant == "None"
+        n += 1
+        oid = f"nodiff/{fname}/ops-model/path{pi}/{'None' if none else 'Some'}-iff-{'no' if none else 'a'}-change"
+        r, m = ses.obligation(oid, list(o.pc) + contract, z3.Not(same) if none else same,
+                              "`nothing to report` is returned exactly when every op of the diff is Equal")
+        if r == "sat":
+            kinds = [next((k for k in ORDER if m.eval(D[i], model_completion=True).as_long() == idx[k].as_long()), "?") for i in range(m.eval(n_ops, model_completion=True).as_long())]
+            what = (f"{fname} reports no difference for a diff with ops {kinds}" if none else f"{fname} prints a diff although every op is Equal (ops {kinds})")
+            flagged.append((oid, what, "nodiff", {"format": {"output_diff_unified": "unified", "output_diff": "standard", "output_diff_json": "json"}[fname], "missed": none, "ops": kinds}))
+    if n == 0:
+        raise Inconclusive(f"{fname}: no path returns Some/None")
+    rep.bounds["ops_model_max_ops"] = K_OPS
+    rep.bounds["ops_model_lines_below"] = 2 ** 20
     return flagged
 
 
@@ -451,6 +639,7 @@ CASES = [
     ("lf-to-crlf", "local   a = 1\nlocal b = 2\n", ["--line-endings", "Windows"]),
     ("crlf-to-lf", "local   a = 1\r\nlocal b = 2\r\n", ["--line-endings", "Unix"]),
     ("already-formatted", "local a = 1\n", []),
+    ("drifted-insert", "local t = {\n  1, 2 }\n" + R("b") + R("a") + "\nprint(a, b, t)\n", ["--sort-requires"]),
     ("moved-block-2", R("e") + R("f") + R("g") + R("a") + R("b") + R("c"), ["--sort-requires"]),
 ]
 
